@@ -23,7 +23,7 @@ ANCHORS = ["prov.serializers.provxml:ProvXMLSerializer.serialize_bundle", "prov.
            "prov.model:ProvBundle._unified_records", "prov.model:ProvDocument.flattened", "prov.model:ProvRecord.copy",
            "prov.serializers.provrdf:ProvRDFSerializer.encode_container"]
 EXPORTS = ["json", "json_opts", "xml", "xml_force", "provn", "get_provn", "rdf", "dot", "dot_opts", "graph", "eq_self", "eq_other",
-           "unified", "flattened", "bundle_unified", "record_ops"]
+           "eq_foreign", "unified", "flattened", "bundle_unified", "record_ops"]
 
 
 def plan(tier, seed):
@@ -59,7 +59,7 @@ def make_case(ctx, idx):
     return {"ops": ops, "calls": calls, "seed": r.randint(0, 2 ** 30)}
 
 
-def do_export(doc, call, r, other=None):
+def do_export(doc, call, r, other=None, foreign=None):
     """Returns text (or None).  Exceptions propagate to the caller."""
     if call == "json":
         return doc.serialize(format="json")
@@ -96,6 +96,15 @@ def do_export(doc, call, r, other=None):
             doc == other
             other == doc
             doc != other
+        return None
+    if call == "eq_foreign":
+        # same shape, every namespace different: comparing must not teach either side the other's names
+        for x, y in ((doc, foreign), (foreign, doc)):
+            x == y
+            x != y
+            for bx in list(x.bundles)[:2]:
+                for by in list(y.bundles)[:2]:
+                    bx == by
         return None
     if call == "unified":
         doc.unified()
@@ -145,10 +154,26 @@ def judge(ctx, idx, case):
     twin = common.build(case["ops"], observed=True).doc
     problems = []
     ev0 = hub.counts["PURE.evaluations"]
+    foreign = None
+    if "eq_foreign" in case["calls"]:
+        import json
+        foreign = interp.run(json.loads(json.dumps(case["ops"]).replace("http://", "http://alt.").replace("urn:x:", "urn:alt:"))).doc
     for call in case["calls"]:
         rs = r.getstate()
         if call == "record_ops":
             record_ops(ctx, doc, problems)
+            continue
+        if call == "eq_foreign":
+            b_doc, b_for = monitors.pure_snapshot(doc), monitors.pure_snapshot(foreign)
+            try:
+                do_export(doc, call, r, twin, foreign)
+                ctx.count("call.eq_foreign.ok")
+            except Exception as e:
+                ctx.count("call.eq_foreign.raised.%s" % type(e).__name__)
+            for who, x, b in (("left operand", doc, b_doc), ("right operand", foreign, b_for)):
+                msgs = monitors.pure_compare(b, monitors.pure_snapshot(x))
+                if msgs:
+                    problems.append({"call": "== / != with a document of other namespaces", "changed": who, "changes": msgs})
             continue
         try:
             t1 = do_export(doc, call, r, twin)
@@ -271,7 +296,7 @@ def floors(counters, tier, extra):
               "ProvDocument.__eq__", "ProvBundle.__eq__", "ProvDocument.unified", "ProvBundle.unified", "flattened"):
         if counters.get("mon.PURE.at." + w, 0) < need:
             out.append("PURE at %s evaluated only %d times" % (w, counters.get("mon.PURE.at." + w, 0)))
-    for k in ("text_pairs_compared", "record_ops", "rdf_isomorphism_checks", "history_purity.json.compared", "history_purity.xml.compared",
+    for k in ("text_pairs_compared", "record_ops", "call.eq_foreign.ok", "rdf_isomorphism_checks", "history_purity.json.compared", "history_purity.xml.compared",
               "history_purity.provn.compared", "observations_during_construction"):
         if counters.get(k, 0) < need // 4:
             out.append("%s only %d" % (k, counters.get(k, 0)))
